@@ -254,7 +254,28 @@ def ensure_tool(tool, variant="plain", wrap=False):
 # ----------------------------------------------------------------------------------
 # Coq
 # ----------------------------------------------------------------------------------
-FORBIDDEN = re.compile(r"\b(Admitted|admit|Axiom|Parameter|Conjecture|Unset\s+Guard|bypass_check|Admit\s+Obligations)\b|type-in-type|impredicative-set")
+FORBIDDEN = re.compile(r"\b(Admitted|admit|give_up|Axioms?|Parameters?|Conjectures?|Unset\s+Guard|Unset\s+Positivity|Unset\s+Universe\s+Checking|"
+                       r"bypass_check|Admit\s+Obligations)\b|type-in-type|impredicative-set")
+SENTENCE_HEAD = re.compile(r"(?:^|\.\s)\s*(?:(?:Local|Global|Polymorphic|Monomorphic|#\[[^\]]*\])\s+)*(Section|Module\s+Type|Module|End|Variables?|Hypothes[ie]s|Context)\b\s*([A-Za-z_][A-Za-z0-9_']*)?")
+
+
+def outside_section_decls(txt):
+    """Variable / Hypothesis / Context sentences that are not inside a Section (they would declare axioms)"""
+    stack, bad = [], []
+    for m in SENTENCE_HEAD.finditer(txt):
+        kw, name = m.group(1).split()[0], m.group(2)
+        if kw in ("Section", "Module"):
+            # `Module X := Y.` opens nothing; a plain `Module X.` / `Module Type X.` does
+            rest = txt[m.end():m.end() + 200]
+            if kw == "Module" and re.match(r"[^.]*:=", rest):
+                continue
+            stack.append(kw)
+        elif kw == "End":
+            if stack:
+                stack.pop()
+        elif "Section" not in stack:
+            bad.append("%s outside a section" % m.group(1))
+    return bad
 
 
 def coq_sources():
@@ -311,6 +332,8 @@ def coq_scan_forbidden(files=None):
         txt = re.sub(r"\(\*.*?\*\)", "", txt, flags=re.S)
         for m in FORBIDDEN.finditer(txt):
             bad.append("%s: %s" % (s, m.group(0)))
+        for b in outside_section_decls(txt):
+            bad.append("%s: %s" % (s, b))
     return bad
 
 
